@@ -22,7 +22,7 @@ def features_args(fs):
 
 
 def compile_scratch(scratch, fs, timeout=1800):
-    cmd = ["cargo", "kani", "-p", "regress"] + KANI_Z + features_args(fs) + ["--only-codegen"]
+    cmd = ["cargo", "kani", "-p", "regress"] + KANI_Z + features_args(fs) + ["--no-codegen"]
     rc, out, secs, to = run(cmd, cwd=scratch, env=offline_env(), timeout=timeout)
     return rc == 0 and not to, out, secs, " ".join(cmd)
 
@@ -268,7 +268,7 @@ def run_batch(scratch, obs, fs, jobs, log_dir, mem_gb=7.0):
                             mem_gb=mem_gb)
     if log_dir:
         os.makedirs(log_dir, exist_ok=True)
-        with open(os.path.join(log_dir, "batch@%s.log" % fs.replace(",", "+")), "w") as f:
+        with open(os.path.join(log_dir, "batch-w%d-fs%d@%s.log" % (obs[0].weight, obs[0].fs, fs.replace(",", "+"))), "w") as f:
             f.write(out)
     # split into per-thread blocks
     events = []  # (pos, thread, harness or None)
